@@ -378,7 +378,8 @@ class LiteralString(String):
         elif len(buf) > match.end(0):
             raise NotParseable(buf[match.end(0):])
         elif params.allow_continuations:
-            expected = ExpectContinuation(b'Literal string', literal_length)
+            expected = ExpectContinuation(b'Literal string', literal_length,
+                                          getattr(buf, 'obj', None))
             buf = expected.expect(params.state)
             literal = bytes(buf[0:literal_length])
         else:
